@@ -73,7 +73,7 @@ ASSUMPTIONS = [
 ]
 RULE = ("cases: (1) corpus (F28–F36 witnesses); (2) reference differential: texts = tbcommon's directed token families "
         "rendered as text (single-step prefixes × probes, pair cover, foreign tables, doctype ids, adoption / Noah / "
-        "foster), themed tag soup (2–7 tag names per theme, attribute shapes, text pieces, doctypes with the quirks "
+        "foster), dispatcher cover (adjusted current node × token kind), themed tag soup (2–7 tag names per theme, attribute shapes, text pieces, doctypes with the quirks "
         "identifiers in mixed case / truncated / extended), C06's skeleton texts; each as a document and under HTML "
         "context elements, scripting 0/1; (3) option relations: srcdoc, dropdt, exact, initial quirks; (4) "
         "correspondence: tbcommon's single-step cover, pair cover, foreign tables, doctype cover, fragment cover, "
@@ -601,6 +601,22 @@ def _c06_texts():
     return list(C06.SKELETON_TEXTS)
 
 
+def dispatcher_texts():
+    """the tree-construction dispatcher: every kind of adjusted current node × every kind of token"""
+    acn = ["<math><mi>", "<math><mo>", "<math><mn>", "<math><ms>", "<math><mtext>", "<math><annotation-xml>",
+           "<math><annotation-xml encoding=text/html>", "<math><annotation-xml encoding=application/xhtml+xml>",
+           "<math><annotation-xml encoding=TEXT/HTML>", "<math><annotation-xml encoding=text/xml>", "<svg><foreignObject>",
+           "<svg><desc>", "<svg><title>", "<svg><g>", "<math><mrow>", "<svg>", "<math>", "<p><math><mi><b>", "<table><tr><td><svg><desc>"]
+    toks = ["<mglyph>", "<malignmark>", "<svg>", "<b>", "<p>", "<mi>", "<g>", "x", " ", "\0", "<!--c-->", "</mi>", "</p>", "<math>",
+            "<table>", "<font color=red>", "<font>", "<mglyph/>", "</svg>", "<foreignobject>", "<title>", "<br>", "</br>", "<tr>", "&amp;"]
+    out = []
+    for a in acn:
+        for t in toks:
+            out.append(a + t + "y")
+            out.append(a + t + "<i>z</math>w</svg>v")
+    return out
+
+
 RELATION_TEXTS = [
     "<!DOCTYPE foo><p>a<table><tr><td>b</table>", "<!DOCTYPE html PUBLIC \"-//W3C//DTD XHTML 1.0 Transitional//EN\" \"x\"><p>a",
     "<!DOCTYPE html PUBLIC \"-//W3C//DTD HTML 4.01 Transitional//EN\"><p><table>", "<!DOCTYPE html><p><table>", "<p><table>x",
@@ -652,7 +668,7 @@ def gen_cases(tier, rng):
     directed = pair + dtc + ftab + adop + noah + fost + (step if not quick else step[::7])
     for t, c in rendered_family(directed):
         texts.append((t, c))
-    for t in _c06_texts() + RELATION_TEXTS:
+    for t in _c06_texts() + RELATION_TEXTS + dispatcher_texts():
         texts.append((t, None))
     # every tag-set name below the standard pair-cover prefixes, as text (documents)
     for t, c in rendered_family(frag if not quick else frag[::3]):
